@@ -307,7 +307,7 @@ func stress(r *mon.Run, c Case) {
 	}
 	before := tableDigest()
 	var wg sync.WaitGroup
-	var mismatches int64
+	var mismatches, progress int64
 	var firstBad atomic.Value
 	start := make(chan struct{})
 	for g := 0; g < c.Clients; g++ {
@@ -319,6 +319,7 @@ func stress(r *mon.Run, c Case) {
 			for i := 0; i < c.Ops; i++ {
 				t := &tasks[grng.IntN(len(tasks))]
 				got := t.run()
+				atomic.AddInt64(&progress, 1)
 				if !bytes.Equal(got, t.want) {
 					if atomic.AddInt64(&mismatches, 1) == 1 {
 						firstBad.Store(fmt.Sprintf("goroutine %d op %d %s: concurrent result %x, sequential %x", g, i, t.name, head(got), head(t.want)))
@@ -331,7 +332,9 @@ func stress(r *mon.Run, c Case) {
 		}(g)
 	}
 	close(start)
+	stopWatch := deadlockWatch(r, c, &progress)
 	wg.Wait()
+	close(stopWatch)
 	r.EvalN(int64(c.Clients * c.Ops))
 	r.Eval([]byte(c.Stream))
 	r.HistN("stress/operations", int64(c.Clients*c.Ops))
@@ -997,4 +1000,63 @@ func main() {
 		r.Inconclusive("fewer than a quarter of the histories contained overlapping operations")
 	}
 	r.Finish()
+}
+
+// deadlockWatch decides a deadlock of the shared cache from a WITNESS, not from elapsed time: when the operation counter
+// has stood still for a while it takes a dump of all goroutines and looks at the ones that are inside the cache package.
+// The cache's lock is only ever held by a goroutine executing a cache method; if every goroutine inside the package is
+// parked in a lock acquisition (and there is at least one), nobody is left who could release the lock, now or later:
+// the run can never finish. That state is reported as a violation with the stacks; anything else (slow machine, long
+// operation) is left to the orchestrator's wall-clock watchdog, whose firing is only ever "inconclusive".
+func deadlockWatch(r *mon.Run, c Case, progress *int64) chan struct{} {
+	stop := make(chan struct{})
+	go func() {
+		last, still := int64(-1), 0
+		for {
+			select {
+			case <-stop:
+				return
+			case <-time.After(2 * time.Second):
+			}
+			cur := atomic.LoadInt64(progress)
+			if cur != last {
+				last, still = cur, 0
+				continue
+			}
+			still++
+			if still < 5 {
+				continue
+			}
+			buf := make([]byte, 4<<20)
+			buf = buf[:runtime.Stack(buf, true)]
+			inCache, parked := 0, 0
+			var sample string
+			for _, g := range strings.Split(string(buf), "\n\n") {
+				if !strings.Contains(g, "/extra/cache.") {
+					continue
+				}
+				inCache++
+				top := g
+				if i := strings.Index(g, "/extra/cache."); i > 0 {
+					top = g[:i] // the frames above the first cache frame: what the goroutine is doing inside it
+				}
+				if strings.Contains(top, "sync.runtime_Semacquire") || strings.Contains(top, "sync.(*RWMutex).RLock") || strings.Contains(top, "sync.(*RWMutex).Lock") || strings.Contains(top, "sync.(*Mutex).Lock") {
+					parked++
+					if sample == "" {
+						sample = g
+					}
+				}
+			}
+			if inCache > 0 && parked == inCache {
+				if len(sample) > 1500 {
+					sample = sample[:1500]
+				}
+				r.Violate("concurrent/deadlock-on-the-shared-cache", fmt.Sprintf("no operation has completed for %d s (%d done); all %d goroutines that are inside the cache package are parked acquiring its lock, so no goroutine is left that could release it. One of them:\n%s", 2*still, cur, inCache, sample), c)
+				r.Finish()
+				os.Exit(0)
+			}
+			still = 0 // not a deadlock witness: keep waiting
+		}
+	}()
+	return stop
 }
